@@ -157,8 +157,8 @@ pub fn generate(prop: &str, thorough: bool, rng: &mut Rng) -> Vec<String> {
     let mut v = Vec::new();
     for &rf in rfs {
         let (nrep, nsync, nexec, nres) = match (thorough, c11) {
-            (false, false) => (40, 14, if rf == 1 { 10 } else { 2 }, 3),
-            (false, true) => (24, 10, if rf == 1 { 40 } else { 4 }, 3),
+            (false, false) => (30, 10, if rf == 1 { 10 } else { 2 }, 3),
+            (false, true) => (20, 8, if rf == 1 { 36 } else { 4 }, 3),
             (true, false) => (400, 90, if rf == 1 { 80 } else { 10 }, 12),
             (true, true) => (200, 60, if rf == 1 { 300 } else { 20 }, 12),
         };
